@@ -122,6 +122,16 @@ SPECS["C19"] = dict(
         H("aggregator_h", "c19_tcmaker_3120_at2", timeout=900, symbolic="4 stakes, high-QC rounds, round; authors 3,1,2,0; quorum at the 2nd", asserts="as the QC makers; every TC entry carries its author's own high-QC round"),
         H("aggregator_h", "c19_tcmaker_3120_at3", timeout=900, symbolic="4 stakes, high-QC rounds, round; quorum at the 3rd", asserts="as the QC makers; every TC entry carries its author's own high-QC round"),
         H("aggregator_h", "c19_tcmaker_dup_0221_at3", timeout=900, symbolic="4 stakes, high-QC rounds, round; authors 0,2,2,1; quorum at the 3rd distinct", asserts="as the QC makers; every TC entry carries its author's own high-QC round"),
+        H("aggregator_h", "c19_qcmaker_3210_at2", tier="thorough", timeout=1200, symbolic="4 stakes (u32), digest/high-QC rounds, round; authors 3,2,1,0; quorum at the 2nd", asserts="as the quick-tier maker harnesses"),
+        H("aggregator_h", "c19_qcmaker_3210_at4", tier="thorough", timeout=1200, symbolic="4 stakes (u32), digest/high-QC rounds, round; authors 3,2,1,0; quorum at the 4th", asserts="as the quick-tier maker harnesses"),
+        H("aggregator_h", "c19_qcmaker_1302_at1", tier="thorough", timeout=1200, symbolic="4 stakes (u32), digest/high-QC rounds, round; authors 1,3,0,2; quorum at the 1st", asserts="as the quick-tier maker harnesses"),
+        H("aggregator_h", "c19_qcmaker_dup_01012_at3", tier="thorough", timeout=1200, symbolic="4 stakes (u32), digest/high-QC rounds, round; authors 0,1,0,1,2; quorum at the 3rd distinct", asserts="as the quick-tier maker harnesses"),
+        H("aggregator_h", "c19_qcmaker_dup_after_0123_3_at3", tier="thorough", timeout=1200, symbolic="4 stakes (u32), digest/high-QC rounds, round; authors 0,1,2,3,3: duplicate after the certificate", asserts="as the quick-tier maker harnesses"),
+        H("aggregator_h", "c19_qcmaker_dup_00112_never", tier="thorough", timeout=1200, symbolic="4 stakes (u32), digest/high-QC rounds, round; authors 0,0,1,1,2; quorum never reached", asserts="as the quick-tier maker harnesses"),
+        H("aggregator_h", "c19_tcmaker_0123_at1", tier="thorough", timeout=1200, symbolic="4 stakes (u32), digest/high-QC rounds, round; timeouts 0,1,2,3; quorum at the 1st", asserts="as the quick-tier maker harnesses"),
+        H("aggregator_h", "c19_tcmaker_0123_at4", tier="thorough", timeout=1200, symbolic="4 stakes (u32), digest/high-QC rounds, round; timeouts 0,1,2,3; quorum at the 4th", asserts="as the quick-tier maker harnesses"),
+        H("aggregator_h", "c19_tcmaker_dup_3310_at2", tier="thorough", timeout=1200, symbolic="4 stakes (u32), digest/high-QC rounds, round; timeouts 3,3,1,0; quorum at the 2nd distinct", asserts="as the quick-tier maker harnesses"),
+        H("aggregator_h", "c19_tcmaker_21_never", tier="thorough", timeout=1200, symbolic="4 stakes (u32), digest/high-QC rounds, round; timeouts 2,1; never", asserts="as the quick-tier maker harnesses"),
         H("aggregator_h", "c19_aggregator_no_mixing", symbolic="none (7 votes interleaved over 2 blocks x 2 rounds, equal stakes)", asserts="a QC holds only votes cast for its own (block, round); formed at the third distinct vote; verifies"),
         H("aggregator_h", "c19_cleanup_keep", symbolic="none", asserts="cleanup(c<=r) keeps the partial quorum of round r"),
         H("aggregator_h", "c19_cleanup_drop", symbolic="none", asserts="cleanup(c>r) drops it"),
@@ -177,6 +187,10 @@ SPECS["C05"] = dict(
         H("core_h", "pb_gap_b1tc_notc", stubbing=True, timeout=900, mem_gb=16, symbolic="as pb_gap_notc; the stored b1 (round 7) carries a TC of round 6", asserts="a TC on b1 never stands in for round adjacency: no commit"),
         H("core_h", "pb_consec_delivered_notc", stubbing=True, timeout=900, mem_gb=16, symbolic="as above, b0 already delivered", asserts="nothing delivered twice"),
         H("core_h", "pb_first_notc", stubbing=True, timeout=900, mem_gb=16, symbolic="as above, rounds 1,2 above genesis", asserts="first commit delivers block 1 only (no genesis)"),
+        H("core_h", "pb_gap3_notc", tier="thorough", stubbing=True, timeout=1200, mem_gb=16, symbolic="as pb_consec_notc; stored rounds 5,8 (gap of 3)", asserts="as pb_consec_notc (vote rule, commit rule, no round/high_qc change)"),
+        H("core_h", "pb_gap_delivered_tc", tier="thorough", stubbing=True, timeout=1200, mem_gb=16, symbolic="as pb_consec_notc; stored rounds 5,7, b0 already delivered, proposal with TC", asserts="as pb_consec_notc (vote rule, commit rule, no round/high_qc change)"),
+        H("core_h", "pb_consec_behind_notc", tier="thorough", stubbing=True, timeout=1200, mem_gb=16, symbolic="as pb_consec_notc; stored rounds 5,6, node already in round 9", asserts="as pb_consec_notc (vote rule, commit rule, no round/high_qc change)"),
+        H("core_h", "pb_first_gap_tc", tier="thorough", stubbing=True, timeout=1200, mem_gb=16, symbolic="as pb_consec_notc; stored rounds 1,3 above genesis, proposal with TC", asserts="as pb_consec_notc (vote rule, commit rule, no round/high_qc change)"),
         H("core2_h", "hv_single", stubbing=True, timeout=900, mem_gb=16, symbolic="vote round/author/validity, node state", asserts="a vote never causes a commit"),
         H("core2_h", "htc_valid", stubbing=True, timeout=900, mem_gb=16, symbolic="TC round, node state", asserts="a TC never causes a commit"),
         H("core2_h", "hp_valid", stubbing=True, timeout=1200, mem_gb=20, symbolic="proposal round/author, node last_voted/high_qc (current round 7)", asserts="a valid proposal over a consecutive certified 2-chain commits its head exactly once"),
@@ -215,6 +229,7 @@ SPECS["C10"] = dict(
         H("core2_h", "hp_valid_behind", stubbing=True, timeout=1200, mem_gb=20, symbolic="as hp_valid, current round 3 (behind the proposal's QC)", asserts="enters round 7 on the QC's evidence, timer reset"),
         H("core2_h", "hp_valid_ahead", stubbing=True, timeout=1200, mem_gb=20, symbolic="as hp_valid, current round 9 (ahead)", asserts="round and timer unchanged"),
         H("core2_h", "hp_valid_tc", stubbing=True, timeout=1200, mem_gb=20, symbolic="proposal round, node last_voted/high_qc; proposal carries QC(6) and TC(8), node in round 3", asserts="round' = 9 on the TC's evidence AND high_qc' = max(high_qc, 6): the QC of a TC-carrying proposal is not lost"),
+        H("core2_h", "hp_valid_tc_stale", stubbing=True, timeout=1200, mem_gb=20, symbolic="as hp_valid_tc, node already in round 12 (delayed proposal from an earlier view change)", asserts="the round never decreases (stays 12); high_qc' = max(high_qc, 6); no vote"),
         H("core2_h", "hv_single", stubbing=True, timeout=900, mem_gb=16, symbolic="vote, node state", asserts="no round/high_qc change without a certificate"),
         H("core2_h", "hv_quorum", stubbing=True, timeout=1200, mem_gb=20, symbolic="node last_voted/high_qc", asserts="round' = r+1 exactly when the QC for r is assembled; high_qc' = max; timer reset; Make carries high_qc"),
         H("core2_h", "hv_quorum_future_nonleader", stubbing=True, timeout=1200, mem_gb=20, symbolic="node last_voted/high_qc", asserts="as hv_quorum for a future round"),
@@ -291,6 +306,12 @@ SPECS["C11"] = dict(
         H("batch_maker_h", "c11_run_oversize_timer_s0", stubbing=True, timeout=900, mem_gb=16, symbolic="bytes of 3 transactions (12, 3, 2); schedule tx,timer,tx,tx,timer", asserts="as above; a timer on an empty batch seals nothing"),
         H("batch_maker_h", "c11_run_boundary_s1", stubbing=True, timeout=900, mem_gb=16, symbolic="bytes of 4 transactions (7, 1, 8, 9); batch_size 8", asserts="exact-threshold and consecutive size-triggered batches"),
         H("batch_maker_h", "c11_run_only_empty_s0", stubbing=True, timeout=900, mem_gb=16, symbolic="two empty transactions then the timer", asserts="a batch of only empty transactions is sealed when the timer fires"),
+        H("batch_maker_h", "c11_run_oversize_timer_s1", tier="thorough", stubbing=True, timeout=900, mem_gb=16, symbolic="transaction contents; as oversize_timer, other select start", asserts="as the quick-tier run harnesses"),
+        H("batch_maker_h", "c11_run_boundary_s0", tier="thorough", stubbing=True, timeout=900, mem_gb=16, symbolic="transaction contents; as boundary, other select start", asserts="as the quick-tier run harnesses"),
+        H("batch_maker_h", "c11_run_only_empty_s1", tier="thorough", stubbing=True, timeout=900, mem_gb=16, symbolic="transaction contents; as only_empty, other select start", asserts="as the quick-tier run harnesses"),
+        H("batch_maker_h", "c11_run_timer_first_s0", tier="thorough", stubbing=True, timeout=900, mem_gb=16, symbolic="transaction contents; timer on an empty buffer first, then mixed", asserts="as the quick-tier run harnesses"),
+        H("batch_maker_h", "c11_run_many_small_s1", tier="thorough", stubbing=True, timeout=900, mem_gb=16, symbolic="transaction contents; five 1-byte transactions, batch size 4", asserts="as the quick-tier run harnesses"),
+        H("batch_maker_h", "c11_run_batch_size_one_s0", tier="thorough", stubbing=True, timeout=900, mem_gb=16, symbolic="transaction contents; batch size 1 with an empty transaction first", asserts="as the quick-tier run harnesses"),
         H("batch_maker_h", "c11_seal_empty_tx", features="benchmark", stubbing=True, timeout=900, mem_gb=16, symbolic="one empty transaction, benchmark build", asserts="no panic in the sample-transaction scan"),
         H("batch_maker_h", "c11_seal_1_0_9", features="benchmark", stubbing=True, timeout=900, mem_gb=16, symbolic="3 transactions (1, 0, 9 bytes), first byte symbolic (0 = sample), benchmark build", asserts="no panic; same batch as the default build"),
     ],
